@@ -3,7 +3,7 @@ strings, floats, flags.  See functions_ops.py for conventions."""
 from pyvc.contracts import contract
 from pyvc.vocab import (forall, implies, ubig, sdecode, take_top, put_all, AnyError, sha256, sha512, ed_verify, ed_sign,
                         is_list_or_absent, list_len_at, calls, same, dict_same, str_keys_same, use_lemma, top_items,
-                        defined, unknown_bool)
+                        defined, unknown_bool, restrict_str)
 from tapescript.errors import ScriptExecutionError
 from tapescript.functions import (int_to_bytes, bytes_to_int, bytes_to_bool, bytes_to_float, float_to_bytes,
                                   run_sig_extensions, run_plugins, clamp_scalar, derive_key_from_seed,
@@ -110,6 +110,9 @@ def msg(cache, f):
     return m
 
 
+SIGFIELDS = tuple('sigfield' + str(i) for i in range(1, 9))
+
+
 def sig_valid(cache, allowed, key, sig):
     """C02 / C03: `sig` is a valid signature under `key` in the sense of C02 (lengths, permitted
     flag bits, Ed25519 over the flag-selected message)"""
@@ -133,7 +136,7 @@ def abs_check_sig(tape, stack, cache):
     sig = stack.get()
     if unknown_bool('check_sig_fails'):
         raise AnyError
-    stack.put(b'\xff' if defined('sig_valid', sig_valid, cache, allowed, key, sig) else b'\x00')
+    stack.put(b'\xff' if defined('sig_valid', sig_valid, restrict_str(cache, SIGFIELDS), allowed, key, sig) else b'\x00')
 
 
 def via_stack(stack, item):
